@@ -558,5 +558,106 @@ func c12Main(args map[string]string) {
 			c.conc(fx, seed+int64(fi), atoi(args["goroutines"]), atoi(args["per"]), tag)
 		}
 	}
+	idx++
+	if idx-1 >= startAt {
+		tag := map[string]interface{}{"kind": "alias", "seed": seed}
+		out.Begin(idx-1, tag)
+		c.aliasing(tag)
+	}
 	fmt.Printf("c12 cases=%d events=%d\n", c.cases, out.n)
+}
+
+// aliasing: where the caller asked for copies (NoCopyString off, copy = true), what a call hands out must not change when the
+// caller reuses its input buffer afterwards.  Each case converts / reads a private copy of the input, renders everything it was
+// given (body, header values, Go values), scribbles over the input, and renders again.
+func (c *c12) aliasing(tag interface{}) {
+	emit := func(op string, f func(in []byte) (func() string, error), input []byte) {
+		c.cases++
+		ev := map[string]interface{}{"ev": "Alias", "op": op, "st": "ok", "intact": true, "case": tag}
+		func() {
+			defer func() {
+				if e := recover(); e != nil {
+					ev["st"] = "panic:" + fmt.Sprint(e)
+				}
+			}()
+			in := append([]byte(nil), input...)
+			render, err := f(in)
+			if err != nil {
+				ev["st"] = "err"
+				return
+			}
+			before := render()
+			for i := range in {
+				in[i] = 0xEE
+			}
+			ev["intact"] = before == render()
+		}()
+		c.out.Emit(ev)
+	}
+	// t2j with response mapping: header values of string, list<string> (one and two elements), set<string>, nested list
+	idl := "namespace go al\nstruct R {\n  1: list<string> l1 (api.header = \"x-l1\")\n  2: list<string> l2 (api.header = \"x-l2\")\n  3: string s (api.header = \"x-s\")\n" +
+		"  4: set<string> st (api.header = \"x-st\")\n  5: i32 n\n  6: list<list<string>> ll (api.header = \"x-ll\")\n  7: string body\n}\nservice S { R M(1: R r) }\n"
+	svc, err := thrift.NewDescritorFromContent(context.Background(), "al.thrift", idl, nil, true)
+	if err != nil {
+		die("alias idl: %v", err)
+	}
+	fn, _ := svc.LookupFunctionByMethod("M")
+	desc := fn.Request().Struct().FieldById(1).Type()
+	w := thrift.NewBinaryProtocolBuffer()
+	str := func(id int16, v string) { w.WriteFieldBegin("", thrift.STRING, thrift.FieldID(id)); w.WriteString(v) }
+	lst := func(id int16, t thrift.Type, vs ...string) {
+		w.WriteFieldBegin("", t, thrift.FieldID(id))
+		w.WriteListBegin(thrift.STRING, len(vs))
+		for _, v := range vs {
+			w.WriteString(v)
+		}
+	}
+	lst(1, thrift.LIST, "solo-element-of-l1")
+	lst(2, thrift.LIST, "first-of-l2", "second-of-l2")
+	str(3, "a-header-string")
+	lst(4, thrift.SET, "only-member")
+	w.WriteFieldBegin("", thrift.I32, 5)
+	w.WriteI32(7)
+	w.WriteFieldBegin("", thrift.LIST, 6)
+	w.WriteListBegin(thrift.LIST, 1)
+	w.WriteListBegin(thrift.STRING, 1)
+	w.WriteString("deep-single")
+	str(7, "in-the-body")
+	w.WriteFieldStop()
+	doc := append([]byte(nil), w.Buf...)
+	for _, kitex := range []bool{false, true} {
+		kitex := kitex
+		emit(fmt.Sprintf("t2j.http-response/kitex=%v", kitex), func(in []byte) (func() string, error) {
+			resp := dhttp.NewHTTPResponse()
+			cv := t2j.NewBinaryConv(conv.Options{EnableHttpMapping: true, UseKitexHttpEncoding: kitex})
+			out, err := cv.Do(context.WithValue(context.Background(), conv.CtxKeyHTTPResponse, resp), desc, in)
+			if err != nil {
+				return nil, err
+			}
+			return func() string {
+				s := string(out)
+				for _, k := range []string{"x-l1", "x-l2", "x-s", "x-st", "x-ll"} {
+					s += "|" + k + "=" + resp.Response.Header.Get(k)
+				}
+				return s
+			}, nil
+		}, doc)
+	}
+	// the Thrift reader with copy = true
+	sdoc := []byte{0, 0, 0, 11, 'c', 'o', 'p', 'y', '-', 'm', 'e', '-', 'o', 'u', 't'}
+	emit("thrift.ReadString(copy)", func(in []byte) (func() string, error) {
+		p := thrift.NewBinaryProtocol(in)
+		v, err := p.ReadString(true)
+		return func() string { return v }, err
+	}, sdoc)
+	emit("thrift.ReadBinary(copy)", func(in []byte) (func() string, error) {
+		p := thrift.NewBinaryProtocol(in)
+		v, err := p.ReadBinary(true)
+		return func() string { return string(v) }, err
+	}, sdoc)
+	emit("thrift.ReadAnyWithDesc(copyString)", func(in []byte) (func() string, error) {
+		p := thrift.NewBinaryProtocol(in)
+		v, err := p.ReadAnyWithDesc(desc, false, true, false, true)
+		return func() string { return fmt.Sprint(v) }, err
+	}, doc)
 }
